@@ -86,12 +86,67 @@ def detect(sid, props=None):
     json.dump(meta, open(os.path.join(dst, 'meta.json'), 'w'), indent=1)
 
 
+def store_negative(outdir, wt, tag):
+    """store behaviour-preserving changes (negative controls) after confirming that the suite passes with them"""
+    for n in sorted(os.listdir(outdir)):
+        d = os.path.join(outdir, n)
+        patch = os.path.join(d, 'patch.diff')
+        if not os.path.exists(patch):
+            continue
+        sid = 'neg-%s%s' % (tag, n)
+        sh('git checkout -- . && git clean -fdq tests', cwd=wt)
+        rc, out = sh('git apply %s' % patch, cwd=wt)
+        if rc != 0:
+            print(sid, 'patch does not apply')
+            continue
+        rc, out = sh('cargo test --offline 2>&1 | grep -E "^test result|FAILED|error\\[" | head -20', cwd=wt)
+        ok = 'FAILED' not in out and 'error[' not in out and out.count('test result: ok') >= 4
+        sh('git checkout -- .', cwd=wt)
+        print(sid, 'suite passes' if ok else 'SUITE FAILS: ' + out[-200:])
+        if ok:
+            dst = os.path.join(SEEDED, sid)
+            os.makedirs(dst, exist_ok=True)
+            shutil.copy(patch, os.path.join(dst, 'patch.diff'))
+            meta = {}
+            try:
+                meta = json.load(open(os.path.join(d, 'meta.json')))
+            except Exception:
+                pass
+            meta.update({'negative_control': True, 'origin': 'independent sub-agent asked for property-preserving changes'})
+            json.dump(meta, open(os.path.join(dst, 'meta.json'), 'w'), indent=1)
+
+
+def negative(sid):
+    """a behaviour-preserving change must not raise any alarm: run all 20 quick checks"""
+    dst = os.path.join(SEEDED, sid)
+    meta = json.load(open(os.path.join(dst, 'meta.json')))
+    rc, out = sh('git status --short', cwd='/repo')
+    if out.strip():
+        print('refusing: /repo has uncommitted changes')
+        sys.exit(2)
+    rc, out = sh('git apply %s' % os.path.join(dst, 'patch.diff'), cwd='/repo')
+    if rc != 0:
+        print(sid, 'patch does not apply to /repo:', out[-300:])
+        return
+    res = meta.setdefault('alarms', {})
+    try:
+        for i in range(1, 21):
+            p = 'C%02d' % i
+            rc, out = sh('./check %s --tier quick' % p, cwd=VERIF)
+            viol = [l for l in out.split('\n') if l.startswith('VIOLATION') or l.startswith('   C') or l.startswith('TOOL-ERROR')]
+            res[p] = {'exit': rc, 'lines': viol[:4]}
+            print(sid, p, 'exit', rc, '|', ' / '.join(viol[:3])[:260], flush=True)
+    finally:
+        sh('git checkout -- .', cwd='/repo')
+    json.dump(meta, open(os.path.join(dst, 'meta.json'), 'w'), indent=1)
+
+
 def table():
     """markdown table of all stored seeded defects and which check detects them"""
     rows = []
     for sid in sorted(os.listdir(SEEDED)):
         mp = os.path.join(SEEDED, sid, 'meta.json')
-        if not os.path.exists(mp):
+        if not os.path.exists(mp) or sid.startswith('neg-'):
             continue
         m = json.load(open(mp))
         det = m.get('detection', {})
@@ -111,6 +166,12 @@ def table():
 
 
 if __name__ == '__main__':
+    if sys.argv[1] == 'store-negative':
+        store_negative(sys.argv[2], sys.argv[3], sys.argv[4] if len(sys.argv) > 4 else '')
+        sys.exit(0)
+    if sys.argv[1] == 'negative':
+        negative(sys.argv[2])
+        sys.exit(0)
     if sys.argv[1] == 'table':
         table()
         sys.exit(0)
@@ -120,5 +181,5 @@ if __name__ == '__main__':
         detect(sys.argv[2], sys.argv[3:] or None)
     elif sys.argv[1] == 'detect-all':
         for sid in sorted(os.listdir(SEEDED)):
-            if os.path.exists(os.path.join(SEEDED, sid, 'meta.json')):
+            if os.path.exists(os.path.join(SEEDED, sid, 'meta.json')) and not sid.startswith('neg-'):
                 detect(sid)
